@@ -57,6 +57,13 @@ const (
 	// the statement's literal gate passes (a teardown of this pod UID was reported) but
 	// the report is about an earlier sandbox: see c03lStrict
 	c03lKnownReAdd = "C03-readd-stale-deleted"
+	// A reconcile that works on a lagging view of the Node CR (the object before the
+	// controller's last write) still makes its cloud calls before its status write is
+	// refused with a conflict. If the last write had REVIVED an address that the older
+	// view has marked Deleting (a replayed assign answer sets a known address back to
+	// Valid) and bound it to a pod, the lagging reconcile unassigns the address of a
+	// live pod in the cloud.
+	c03lKnownStaleUnassign = "C03-stale-view-unassigns-revived-address"
 )
 
 func init() {
@@ -248,6 +255,9 @@ func c03lGen(t *rapid.T) c03lScenario {
 			op.A = rapid.SampledFrom([]int{0, 0, 0, 0, 1, 1, 1, 1, 1, 2, 3, 4, 5}).Draw(t, "flags")
 			// a lost assign answer (B) is usually followed by a full sync, which records
 			// the addresses the cloud holds; a later identical request is then replayed
+			if rapid.IntRange(0, 3).Draw(t, "staleView") == 0 {
+				op.A |= 8 // read the Node CR from a lagging cache (effective only right after a controller write)
+			}
 			if wantFull > 0 {
 				if rapid.IntRange(0, 3).Draw(t, "fullAfterLoss") > 0 {
 					op.A |= 2
@@ -352,7 +362,13 @@ type c03lWorld struct {
 	crd   *eni.CRDV2
 	svc   *networkService
 
-	failNodeStatus bool           // next Node CR status write fails
+	failNodeStatus bool                 // next Node CR status write fails
+	inReconcile    bool                 // a controller reconcile is running
+	serveStale     bool                 // the running reconcile reads the Node CR from a lagging cache
+	staleNode      *networkv1beta1.Node // the Node CR as it was before the controller's last write
+	staleBudget    int                  // reconciles that may still see it (the cache catches up)
+	staleServed    int
+	wroteNode      int
 	failRuntime    bool           // NodeRuntime writes fail while set
 	inWrite        func()         // runs once inside the next NodeRuntime write (before it is applied or failed)
 	step           int            // index of the running step
@@ -362,6 +378,8 @@ type c03lWorld struct {
 	// liveness clause speaks of a teardown that "is reported"; whether the report is
 	// still in NodeRuntime when the pod object finally goes is the agent's business.
 	everReported map[string]bool
+	abandon      bool            // a listed finding fired: stop judging this history
+	revived      map[string]bool // addresses a replayed assign answer set back from Deleting to Valid
 	conflict     bool
 
 	slots      []*c03lSlot
@@ -378,7 +396,7 @@ func c03lPodID(k int) string   { return "ns/" + c03lPodName(k) }
 
 func c03lNewWorld(c *vt.Ctx, s c03lScenario) *c03lWorld {
 	w := &c03lWorld{c: c, s: s, delIssued: map[string]bool{}, verified: map[string]bool{},
-		owners: map[string]c03cloud.Owner{}, takeover: map[string]bool{}, reportStep: map[string]int{}, everReported: map[string]bool{}}
+		owners: map[string]c03cloud.Owner{}, takeover: map[string]bool{}, reportStep: map[string]int{}, everReported: map[string]bool{}, revived: map[string]bool{}}
 	w.vnow = time.Now().Add(-2 * time.Hour).Truncate(time.Second)
 	w.ctx = aliyunClient.SetBackendAPI(context.Background(), aliyunClient.BackendAPIECS)
 	w.cloud = c03cloud.New("i-1", "vsw-1", "zone-a")
@@ -402,6 +420,16 @@ func c03lNewWorld(c *vt.Ctx, s c03lScenario) *c03lWorld {
 			return []string{o.(*corev1.Pod).Spec.NodeName}
 		}).
 		WithInterceptorFuncs(interceptor.Funcs{
+			// a lagging informer cache: the controller's read of the Node CR is served the
+			// object as it was before the controller's own last write
+			Get: func(ctx context.Context, cl client.WithWatch, key client.ObjectKey, obj client.Object, opts ...client.GetOption) error {
+				if n, ok := obj.(*networkv1beta1.Node); ok && w.serveStale && w.staleNode != nil {
+					w.staleNode.DeepCopyInto(n)
+					w.staleServed++
+					return nil
+				}
+				return cl.Get(ctx, key, obj, opts...)
+			},
 			Create: func(ctx context.Context, cl client.WithWatch, obj client.Object, opts ...client.CreateOption) error {
 				if rt, ok := obj.(*networkv1beta1.NodeRuntime); ok {
 					w.duringWrite()
@@ -435,15 +463,14 @@ func c03lNewWorld(c *vt.Ctx, s c03lScenario) *c03lWorld {
 				if isRuntime(obj) && w.failRuntime {
 					return apierrors.NewInternalError(errors.New("c03: injected write failure"))
 				}
+				if _, ok := obj.(*networkv1beta1.Node); ok && sub == "status" {
+					return w.nodeStatusWrite(ctx, cl, obj, func() error { return cl.SubResource(sub).Patch(ctx, obj, patch, opts...) })
+				}
 				return cl.SubResource(sub).Patch(ctx, obj, patch, opts...)
 			},
 			SubResourceUpdate: func(ctx context.Context, cl client.Client, sub string, obj client.Object, opts ...client.SubResourceUpdateOption) error {
-				if _, ok := obj.(*networkv1beta1.Node); ok && w.failNodeStatus {
-					w.failNodeStatus = false
-					if w.conflict {
-						return apierrors.NewConflict(schema.GroupResource{Group: "network.alibabacloud.com", Resource: "nodes"}, obj.GetName(), errors.New("c03: injected conflict"))
-					}
-					return apierrors.NewInternalError(errors.New("c03: injected write failure"))
+				if _, ok := obj.(*networkv1beta1.Node); ok && sub == "status" {
+					return w.nodeStatusWrite(ctx, cl, obj, func() error { return cl.SubResource(sub).Update(ctx, obj, opts...) })
 				}
 				return cl.SubResource(sub).Update(ctx, obj, opts...)
 			},
@@ -550,6 +577,29 @@ func c03lNewWorld(c *vt.Ctx, s c03lScenario) *c03lWorld {
 	w.db = storage.NewMemoryStorage()
 	w.startAgent()
 	return w
+}
+
+// nodeStatusWrite is every write of the Node CR status: injected failures, and the
+// bookkeeping for the lagging-cache reads (what the object looked like before the
+// controller's last successful write). The store itself enforces resourceVersion
+// conflicts on Update; a merge patch without a resourceVersion is applied as is, as
+// an API server does.
+func (w *c03lWorld) nodeStatusWrite(ctx context.Context, cl client.Client, obj client.Object, do func() error) error {
+	if w.failNodeStatus {
+		w.failNodeStatus = false
+		if w.conflict {
+			return apierrors.NewConflict(schema.GroupResource{Group: "network.alibabacloud.com", Resource: "nodes"}, obj.GetName(), errors.New("c03: injected conflict"))
+		}
+		return apierrors.NewInternalError(errors.New("c03: injected write failure"))
+	}
+	cur := &networkv1beta1.Node{}
+	getErr := cl.Get(ctx, client.ObjectKeyFromObject(obj), cur)
+	err := do()
+	if err == nil && getErr == nil && w.inReconcile {
+		w.staleNode, w.staleBudget = cur, 2
+		w.wroteNode++
+	}
+	return err
 }
 
 // duringWrite runs the armed action (once) at the moment a NodeRuntime write of the
@@ -1056,7 +1106,28 @@ func (w *c03lWorld) opReconcile(i int, op c03lOp) {
 		w.c.NonTrivial()
 	}
 
+	// stale read: only directly after a write by the controller (it requeues itself one
+	// second after every write, which is when a lagging informer matters)
+	stale := op.A&8 != 0 && w.staleNode != nil && w.staleBudget > 0
+	w.inReconcile, w.serveStale, w.staleServed, w.wroteNode = true, stale, 0, 0
 	_, err := w.ctl.Reconcile(w.ctx, c03lNode)
+	w.inReconcile, w.serveStale = false, false
+	if stale {
+		w.staleBudget--
+		w.c.Label("reconcile:stale-node-view")
+		if apierrors.IsConflict(err) {
+			w.c.Label("reconcile:stale-node-view->conflict")
+		}
+		if w.wroteNode > 0 {
+			w.c.Label("reconcile:stale-node-view->write-accepted")
+		}
+		w.c.Trace("    (Node CR read from a lagging cache: the object before the controller's last write; writes accepted: %d)", w.wroteNode)
+	} else {
+		if w.wroteNode == 0 {
+			// a reconcile on the current object that wrote nothing: the cache has caught up
+			w.staleNode, w.staleBudget = nil, 0
+		}
+	}
 	w.failNodeStatus = false
 	w.cloud.SetFaults(nil)
 	w.cloud.SetOpFault("AssignV4", c03cloud.FaultNone)
@@ -1069,6 +1140,16 @@ func (w *c03lWorld) opReconcile(i int, op c03lOp) {
 		}
 		if cl.Op == "AssignV4(replay)" || cl.Op == "AssignV6(replay)" {
 			w.c.Label("cloud:assign-answer-replayed")
+			if e := prev.Status.NetworkInterfaces[cl.ENI]; e != nil && !stale {
+				for _, x := range cl.IPs {
+					for _, m := range []map[string]*networkv1beta1.IP{e.IPv4, e.IPv6} {
+						if ip := m[x]; ip != nil && ip.Status == networkv1beta1.IPStatusDeleting {
+							w.revived[x] = true
+							w.c.Label("cloud:replay-revives-a-deleting-address")
+						}
+					}
+				}
+			}
 		}
 		if (cl.Op == "AssignV4" || cl.Op == "AssignV6") && cl.Err == "after" {
 			w.c.Label("cloud:assign-answer-lost")
@@ -1083,6 +1164,13 @@ func (w *c03lWorld) opReconcile(i int, op c03lOp) {
 	prevTruth := c03cloud.WithTruth(prev.Status.NetworkInterfaces, w.owners)
 	for _, tch := range c03cloud.Touches(prevTruth, now.Status.NetworkInterfaces, calls) {
 		ok, why := c03cloud.MayReclaim(tch.PodID, tch.PodUID, pods, rt)
+		if !ok && stale && w.revived[tch.IP] && strings.Contains(tch.What, "named in cloud call") && vt.Known(c03lKnownStaleUnassign) && !w.s.Witness {
+			// the cloud has lost an address the record still has: the rest of this history
+			// would only show the consequences of that (the next full sync drops it)
+			w.c.Label("known:" + c03lKnownStaleUnassign)
+			w.abandon = true
+			continue
+		}
 		if !ok {
 			w.c.Fatalf("step %d (reconcile): %s -- but %s. pods at start: %v; runtime at start: %s",
 				i, tch, why, pods, c03lShowRT(rt, w.vnow))
@@ -1116,7 +1204,7 @@ func (w *c03lWorld) opReconcile(i int, op c03lOp) {
 	}
 
 	// bounded liveness, fault-free reconciles only
-	faulty := err != nil || statusFault
+	faulty := err != nil || statusFault || stale
 	for _, cl := range calls {
 		if cl.Err != "" {
 			faulty = true
@@ -1259,6 +1347,9 @@ func c03lRun(c *vt.Ctx, s c03lScenario) {
 		if agentStep {
 			w.settle(op.K, before)
 		}
+		if w.abandon {
+			return
+		}
 	}
 	w.closing(len(s.Ops))
 }
@@ -1320,6 +1411,20 @@ func (w *c03lWorld) closing(n int) {
 			left, c03lShowRT(w.runtimeObj(), w.vnow))
 	}
 	w.c.Label("closing:all-freed")
+}
+
+// Deterministic witness of the candidate finding C03-stale-view-unassigns-revived-address.
+func TestVerifC03KnownWitnessStaleUnassign(t *testing.T) {
+	s := c03lScenario{PerENI: 5, Witness: true, Ops: []c03lOp{
+		{K: "create", P: 0}, {K: "reconcile"},
+		{K: "create", P: 1}, {K: "reconcile", B: 1}, // assign executed, answer lost
+		{K: "delobj", P: 1}, {K: "reconcile", A: 3}, // full sync records the address, pool GC marks it Deleting
+		{K: "create", P: 2}, {K: "reconcile"}, // identical assign: answer replayed, address Valid again and bound to p2
+		{K: "reconcile", A: 8}, // lagging view (address still Deleting): UnAssign in the cloud, then conflict
+	}}
+	vt.Witness(t, "C03", c03lKnownStaleUnassign,
+		"a replayed assign answer revives an address the record had marked Deleting and it is bound to a pod; a reconcile on the Node CR as it was before that write unassigns the address in the cloud (its own status write is then refused, the cloud call is not undone) while the pod exists",
+		s, c03lRun)
 }
 
 func TestVerifC03ClosedLoop(t *testing.T) { vt.Run(t, c03lGen, c03lRun) }
